@@ -318,13 +318,13 @@ void add_sub(const std::string &name, int cases, rc::Gen<Case> gen, F fn) {
 // Deterministic (enumerated) sub-check: body calls emit(text, obs) itself.
 inline void add_enum_sub(const std::string &name,
                          std::function<void(Sub &, double scale)> body,
-                         std::function<void(const std::string &, Obs &)> replay) {
+                         std::function<void(const std::string &, Obs &)> replay, bool every_shard = false) {
   Sub s;
   s.name = name;
   s.cases = 0;
   s.replay = std::move(replay);
-  s.run = [body](Sub &self, uint64_t, double scale, int) {
-    if (ctx().shard != 0) return;
+  s.run = [body, every_shard](Sub &self, uint64_t, double scale, int) {
+    if (ctx().shard != 0 && !every_shard) return;
     auto t0 = std::chrono::steady_clock::now();
     strncpy(ctx().cur_sub, self.name.c_str(), sizeof ctx().cur_sub - 1);
     body(self, scale);
